@@ -355,65 +355,81 @@ def dense_pairs():
     return pairs, heavy
 
 
-def dense_thread_pass(ctx):
-    """Two threads using the SAME format module on distinct data, a scheduling point at EVERY line of iodata code,
-    all schedules with at most one preemption: finds module-level scratch state shared between concurrent calls."""
-    import threading
+DENSE_QUICK = ("xyz load/load", "wfn load/load", "mol2 load/load", "xyz dump/dump", "xyz load_many/load_many")
+DENSE_VISIT_CAP = {"quick": 2, "thorough": 4}
 
+
+def dense_worker(chunk, seed, tier):
+    """Two threads using the SAME format module on distinct data; a scheduling point at every line of iodata code (the first
+    DENSE_VISIT_CAP visits of each line per thread); all schedules with at most one preemption."""
     import iodata
+    from mc.core import Part, make_scratch
 
+    part = Part(seed, tier)
     root = os.path.dirname(os.path.abspath(iodata.__file__))
 
     def is_point(frame, event):
         fn = frame.f_code.co_filename
         return fn.startswith(root) and "/test/" not in fn
 
-    pairs, heavy = dense_pairs()
-    if ctx.thorough:
-        pairs = pairs + heavy
-    else:
-        pairs = [p for p in pairs if p[0] in ("xyz load/load",)]
-    base_dir = ctx.scratch() / "dense"
-    base_dir.mkdir(exist_ok=True)
+    allpairs = {p[0]: p for group in dense_pairs() for p in group}
+    base_dir = make_scratch()
     total = npoints = 0
-    with WarningHook() as hook:
-        for label, call_a, call_b in pairs:
-            works = []
-            for t in range(2):
-                w = base_dir / (label.replace(" ", "_").replace("/", "-")) / f"t{t}"
-                w.mkdir(parents=True, exist_ok=True)
-                works.append(str(w))
-            alone = [run_plain(call_a, works[0], hook), run_plain(call_b, works[1], hook)]
-            hook.repair()
+    try:
+        with WarningHook() as hook:
+            for label in chunk:
+                _, call_a, call_b = allpairs[label]
+                works = []
+                for t in range(2):
+                    w = base_dir / (label.replace(" ", "_").replace("/", "-")) / f"t{t}"
+                    w.mkdir(parents=True, exist_ok=True)
+                    works.append(str(w))
+                alone = [run_plain(call_a, works[0], hook), run_plain(call_b, works[1], hook)]
+                hook.repair()
 
-            def make_bodies(call_a=call_a, call_b=call_b, works=works):
-                return [lambda: run_plain(call_a, works[0], hook), lambda: run_plain(call_b, works[1], hook)]
+                def make_bodies(call_a=call_a, call_b=call_b, works=works):
+                    return [lambda: run_plain(call_a, works[0], hook), lambda: run_plain(call_b, works[1], hook)]
 
-            def check(x, label=label, alone=alone):
-                nonlocal npoints
-                npoints += len(x.points)
-                bad = False
-                for t in (0, 1):
-                    got = x.results.get(t) if t not in x.errors else {"harness_exception": repr(x.errors[t])}
-                    if got != alone[t]:
-                        bad = True
-                        where = [p["where"] for p, c in zip(x.points, x.choices) if p["running_enabled"] and p["enabled"][c] != p["running"]]
-                        site = where[0].split(":", 1)[1].rsplit(":", 1)[0] if where else "?"
-                        ctx.violation("threads", f"thread-result-differs:{label}:preempted-in:{site}", {"pair": label, "preempted_at": where, "thread": t},
-                                      f"{label}: thread {t} returns {json.dumps(got)[:160]} when preempted at {where}, alone it returns {json.dumps(alone[t])[:160]}")
-                if hook.machinery_intact():
-                    hook.repair()  # judged by the first thread pass (known finding); not counted here
-                ctx.outcome("threads-dense", "as-alone" if not bad else "DIFFERS")
+                def check(x, label=label, alone=alone):
+                    nonlocal npoints
+                    npoints += len(x.points)
+                    bad = False
+                    for t in (0, 1):
+                        got = x.results.get(t) if t not in x.errors else {"harness_exception": repr(x.errors[t])}
+                        if got != alone[t]:
+                            bad = True
+                            where = [p["where"] for p, c in zip(x.points, x.choices) if p["running_enabled"] and p["enabled"][c] != p["running"]]
+                            site = where[0].split(":", 1)[1].rsplit(":", 1)[0] if where else "?"
+                            part.violation("threads", f"thread-result-differs:{label}:preempted-in:{site}", {"pair": label, "preempted_at": where, "thread": t},
+                                           f"{label}: thread {t} returns {json.dumps(got)[:160]} when preempted at {where}, alone it returns {json.dumps(alone[t])[:160]}")
+                    if hook.machinery_intact():
+                        hook.repair()  # judged by the first thread pass (known finding); not counted here
+                    part.outcome("threads-dense", "as-alone" if not bad else "DIFFERS")
 
-            ex = se.Explorer(make_bodies, is_point, bound=1, max_executions=20000 if ctx.thorough else 6000)
-            ex.explore(check)
-            total += ex.executions
-            ctx.count(ex.executions)
-            ctx.nontrivial(("threads-dense", label))
-            if ex.capped:
-                ctx.notes.append(f"dense thread pass {label}: capped at {ex.executions} executions")
-            hook.repair()
-    ctx.cov.update(dense_thread_pairs=len(pairs), dense_thread_executions=total, dense_thread_scheduling_points=npoints, dense_preemption_bound=1)
+                ex = se.Explorer(make_bodies, is_point, bound=1, max_executions=40000 if tier == "thorough" else 8000, visit_cap=DENSE_VISIT_CAP[tier])
+                ex.explore(check)
+                total += ex.executions
+                part.count(ex.executions)
+                part.nontrivial(("threads-dense", label))
+                if ex.capped:
+                    part.cov["dense_pairs_capped"] = part.cov.get("dense_pairs_capped", 0) + 1
+                hook.repair()
+        part.cov["dense_thread_executions"] = total
+        part.cov["dense_thread_scheduling_points"] = npoints
+    finally:
+        shutil.rmtree(base_dir, ignore_errors=True)
+    return part.result()
+
+
+def dense_thread_pass(ctx):
+    from mc.pool import pmap
+
+    pairs, heavy = dense_pairs()
+    labels = [p[0] for p in pairs + heavy]
+    if not ctx.thorough:
+        labels = [lab for lab in labels if lab in DENSE_QUICK]
+    pmap(ctx, dense_worker, labels, chunk=1)
+    ctx.cov.update(dense_thread_pairs=labels, dense_preemption_bound=1, dense_visit_cap=DENSE_VISIT_CAP[ctx.tier])
 
 
 def run(ctx):
